@@ -10,9 +10,7 @@ import (
 	"fmt"
 	"math/big"
 	"sort"
-	"time"
 
-	"github.com/ElrondNetwork/elrond-go/data"
 	"github.com/ElrondNetwork/elrond-go/data/block"
 	"github.com/ElrondNetwork/elrond-go/data/state"
 	"verif/harness/internal/vtrace"
@@ -53,9 +51,11 @@ type recQueue struct {
 func (q *recQueue) Add(d []byte) []byte { q.last = q.inner.Add(d); return q.last }
 
 type job struct {
-	kind string // snap | cp
+	kind string // s | c
 	root []byte
 	rid  int
+	g    int64 // goroutine of the accounts DB that runs the job
+	idx  int
 	done bool
 }
 
@@ -70,8 +70,7 @@ type driver struct {
 	manual int           // EnterPruningBufferingMode calls of the driver not yet exited
 	jobs   []*job
 	ncp    uint32 // GetNumCheckpoints baseline
-	parked bool   // a background reader is parked at the gate
-	err    error
+	clean  bool   // this trace avoids the triggers of the known deviations
 }
 
 func hdr(b blk) *block.Header {
@@ -238,9 +237,10 @@ func (d *driver) genesis(c cfg, txs []txop) error {
 	out, st := d.observe()
 	out["r"] = b.rid
 	out["n"] = nodes
+	out["h"] = 0
 	out["parts"] = parts
 	d.w.NewTraceWith("New", M{"ewl": c.EwlSize, "buf": c.BufLen, "q": c.Queue, "lvl": c.Level, "hold": c.HolderMax,
-		"snaps": c.MaxSnaps, "cpmod": c.CpMod}, out, st)
+		"snaps": c.MaxSnaps, "cpmod": c.CpMod, "clean": b2i(d.clean)}, out, st)
 	return nil
 }
 
@@ -267,11 +267,17 @@ func (d *driver) commit(txs []txop, reapply bool) error {
 	}
 	b := blk{root: root, rid: d.s.id(root), txs: txs, nonce: d.nonce, nodes: nodes}
 	d.chain = append(d.chain, b)
-	re := 0
-	if reapply {
-		re = 1
+	// a full checkpoint hashes holder makes Commit start a checkpoint job
+	fresh, err := d.sync()
+	if err != nil {
+		return err
 	}
-	d.emit("Commit", M{"reapply": re}, M{"r": b.rid, "n": nodes, "parts": parts, "parent": parent.rid})
+	if len(fresh) > 1 || (len(fresh) == 1 && (fresh[0].kind != "c" || fresh[0].rid != b.rid)) {
+		return fmt.Errorf("Commit started unexpected jobs: %d", len(fresh))
+	}
+	extra := d.jobObs()
+	extra["r"], extra["n"], extra["h"], extra["parts"], extra["parent"], extra["cp"] = b.rid, nodes, int(b.nonce), parts, parent.rid, len(fresh)
+	d.emit("Commit", M{"reapply": b2i(reapply)}, extra)
 	return nil
 }
 
@@ -291,15 +297,29 @@ func (d *driver) finalize() error {
 	d.nfin++
 	pruned := 0
 	if len(d.q.last) != 0 {
-		if !bytes.Equal(d.q.last, d.chain[0].root) {
-			return fmt.Errorf("pruning queue returned %x, oldest live root is %x", d.q.last, d.chain[0].root)
+		// whichever root the pruning queue handed to CancelPrune/PruneTrie is no longer live
+		pruned = d.s.id(d.q.last)
+		for i, b := range d.chain {
+			if bytes.Equal(b.root, d.q.last) {
+				d.chain = append(d.chain[:i:i], d.chain[i+1:]...)
+				if i < d.nfin {
+					d.nfin--
+				}
+				break
+			}
 		}
-		pruned = d.chain[0].rid
-		d.chain = d.chain[1:]
-		d.nfin--
 	}
-	d.afterStateCall()
-	d.emit("Finalize", M{"r": h.rid, "wasblocked": b2i(blocked)}, M{"pruned": pruned})
+	// the checkpoint modulus makes updateStateStorage start a checkpoint job for the final root
+	fresh, err := d.sync()
+	if err != nil {
+		return err
+	}
+	if len(fresh) > 1 || (len(fresh) == 1 && (fresh[0].kind != "c" || fresh[0].rid != h.rid)) {
+		return fmt.Errorf("updateStateStorage started unexpected jobs: %d", len(fresh))
+	}
+	extra := d.jobObs()
+	extra["pruned"], extra["cp"] = pruned, len(fresh)
+	d.emit("Finalize", M{"r": h.rid, "wasblocked": b2i(blocked)}, extra)
 	return nil
 }
 
@@ -317,7 +337,12 @@ func (d *driver) rollback() error {
 	d.s.sites.PruneStateOnRollback(hdr(cur), hdr(prev))
 	d.chain = d.chain[:len(d.chain)-1]
 	d.rolled[prev.rid] = append(d.rolled[prev.rid], cur)
-	d.emit("Rollback", M{"r": cur.rid, "wasblocked": b2i(blocked)}, M{"prev": prev.rid})
+	if _, err := d.sync(); err != nil {
+		return err
+	}
+	extra := d.jobObs()
+	extra["prev"] = prev.rid
+	d.emit("Rollback", M{"r": cur.rid, "wasblocked": b2i(blocked)}, extra)
 	return nil
 }
 
@@ -331,7 +356,7 @@ func b2i(b bool) int {
 func (d *driver) enter() {
 	d.s.tsm.EnterPruningBufferingMode()
 	d.manual++
-	d.emit("Enter", M{}, nil)
+	d.emit("Enter", M{"x": 0}, d.jobObs())
 }
 
 func (d *driver) exit() error {
@@ -340,102 +365,141 @@ func (d *driver) exit() error {
 	}
 	d.s.tsm.ExitPruningBufferingMode()
 	d.manual--
-	d.emit("Exit", M{}, nil)
+	d.emit("Exit", M{"x": 0}, d.jobObs())
 	return nil
 }
 
 // ---------------------------------------------------------------------------------------------
-// snapshots / checkpoints under schedule control.  The gate parks every main-DB read issued by a
-// goroutine other than the driver's (the storage manager's snapshot loop); the driver releases one
-// read at a time.  Completion of all jobs is AccountsDB.GetNumCheckpoints() reaching the number of
-// jobs started (increaseNumCheckpoints is the last statement of both job goroutines).
+// snapshots / checkpoints under schedule control (see gate.go).  A job is one AccountsDB.SnapshotState /
+// SetStateCheckpoint call (explicit, or implicit from updateStateStorage's checkpoint modulus / a full
+// hashes holder in Commit); it is discovered when its goroutine first parks at the TakeSnapshot /
+// SetCheckpoint gate.  All jobs have finished when AccountsDB.GetNumCheckpoints() has grown by the
+// number of jobs (increaseNumCheckpoints is the last statement of both job goroutines).
 
-const gateTimeout = 20 * time.Second
-
-// waitParkedOrIdle returns after a background reader parked at the gate (true, key) or after every
-// started job has finished (false).  It polls only to detect completion; nothing depends on timing.
-func (d *driver) waitParkedOrIdle() (bool, []byte, error) {
-	deadline := time.Now().Add(gateTimeout)
-	for {
-		select {
-		case k := <-d.s.db.arrive:
-			d.parked = true
-			return true, k, nil
-		case <-time.After(200 * time.Microsecond):
-		}
-		if d.jobsDone() {
-			return false, nil, nil
-		}
-		if time.Now().After(deadline) {
-			return false, nil, fmt.Errorf("snapshot goroutines neither reached the gate nor finished within %v", gateTimeout)
+func (d *driver) jobOf(g int64) *job {
+	for _, j := range d.jobs {
+		if j.g == g {
+			return j
 		}
 	}
+	return nil
 }
 
-func (d *driver) jobsStarted() uint32 { return uint32(len(d.jobs)) }
-func (d *driver) jobsDone() bool      { return d.s.adb.GetNumCheckpoints()-d.ncp >= d.jobsStarted() }
+// sync waits until every other goroutine is blocked and registers jobs whose goroutine shows up for
+// the first time; returns the jobs discovered
+func (d *driver) sync() ([]*job, error) {
+	if err := settle(); err != nil {
+		return nil, err
+	}
+	var fresh []*job
+	for _, p := range d.s.g.parked() {
+		if p.kind == "get" || d.jobOf(p.g) != nil {
+			continue
+		}
+		kind := "s"
+		if p.kind == "cp" {
+			kind = "c"
+		}
+		j := &job{kind: kind, root: p.key, rid: d.s.id(p.key), g: p.g, idx: len(d.jobs) + 1}
+		d.jobs = append(d.jobs, j)
+		fresh = append(fresh, j)
+	}
+	return fresh, nil
+}
 
-// afterStateCall is called after driver-thread calls that may have started a job implicitly
-// (updateStateStorage with a checkpoint modulus, Commit with a full hashes holder)
-func (d *driver) afterStateCall() {}
+func (d *driver) jobsDone() bool {
+	return d.s.adb.GetNumCheckpoints()-d.ncp >= uint32(len(d.jobs)) && len(d.s.g.parked()) == 0
+}
 
 func (d *driver) startJob(kind string, idx int) error {
 	if idx < 0 || idx >= len(d.chain) {
 		return fmt.Errorf("no live root %d", idx)
 	}
 	b := d.chain[idx]
-	d.s.db.setGate(true)
-	j := &job{kind: kind, root: b.root, rid: b.rid}
-	d.jobs = append(d.jobs, j)
+	a := "SnapStart"
 	if kind == "snap" {
 		d.s.adb.SnapshotState(append([]byte(nil), b.root...))
 	} else {
+		a = "CpStart"
 		d.s.adb.SetStateCheckpoint(append([]byte(nil), b.root...))
 	}
-	a := "SnapStart"
-	if kind == "cp" {
-		a = "CpStart"
+	fresh, err := d.sync()
+	if err != nil {
+		return err
 	}
-	if !d.parked {
-		if _, _, err := d.waitParkedOrIdle(); err != nil {
-			return err
-		}
+	if len(fresh) != 1 || fresh[0].rid != b.rid {
+		return fmt.Errorf("%s(%d): expected exactly one new job goroutine for that root, got %d", a, b.rid, len(fresh))
 	}
 	d.emit(a, M{"r": b.rid}, d.jobObs())
 	return nil
 }
 
-// step releases the parked reader and waits for the next park / completion
-func (d *driver) step() error {
-	if !d.parked {
-		return fmt.Errorf("no reader parked")
+// parkedLoop returns the parked snapshot-loop read, parkedG the parked accounts goroutine of job j
+func (d *driver) parkedLoop() *parkedG {
+	for _, p := range d.s.g.parked() {
+		if p.kind == "get" {
+			return p
+		}
 	}
-	d.parked = false
-	d.s.db.release <- struct{}{}
-	_, _, err := d.waitParkedOrIdle()
-	if err != nil {
+	return nil
+}
+
+func (d *driver) parkedJob(j *job) *parkedG {
+	for _, p := range d.s.g.parked() {
+		if p.kind != "get" && p.g == j.g {
+			return p
+		}
+	}
+	return nil
+}
+
+// release lets one parked goroutine continue and waits until everything is blocked again
+func (d *driver) release(p *parkedG) error {
+	who, jidx := "L", 0
+	if p.kind != "get" {
+		who = "G"
+		jidx = d.jobOf(p.g).idx
+	}
+	key := d.s.id(p.key)
+	d.s.g.releaseOne(p)
+	if _, err := d.sync(); err != nil {
 		return err
 	}
-	d.emit("SnapStep", M{}, d.jobObs())
+	d.emit("SnapStep", M{"who": who, "j": jidx, "key": key}, d.jobObs())
 	return nil
+}
+
+// step releases the snapshot loop if it is parked, else the first parked accounts goroutine
+func (d *driver) step() error {
+	ps := d.s.g.parked()
+	if len(ps) == 0 {
+		return fmt.Errorf("nothing parked")
+	}
+	if p := d.parkedLoop(); p != nil {
+		return d.release(p)
+	}
+	return d.release(ps[0])
 }
 
 // drainJobs lets every started job run to completion
 func (d *driver) drainJobs() error {
-	for d.parked {
+	for len(d.s.g.parked()) > 0 {
 		if err := d.step(); err != nil {
 			return err
 		}
+	}
+	if !d.jobsDone() {
+		return fmt.Errorf("nothing is parked but %d of %d jobs have finished", d.s.adb.GetNumCheckpoints()-d.ncp, len(d.jobs))
 	}
 	return nil
 }
 
 // snapshotContent lists which known nodes are present in the snapshot DB that the storage manager
 // returns for the given root (the DB a later recreate-from-snapshot would use)
-func (d *driver) snapshotContent(root []byte) (bool, []int) {
+func (d *driver) snapshotContent(root []byte) (bool, []int, bool) {
 	sdb := d.s.tsm.GetSnapshotThatContainsHash(root)
 	if sdb == nil {
-		return false, []int{}
+		return false, []int{}, false
 	}
 	defer sdb.DecreaseNumReferences()
 	var got [][]byte
@@ -445,11 +509,14 @@ func (d *driver) snapshotContent(root []byte) (bool, []int) {
 			got = append(got, h)
 		}
 	}
-	return true, d.s.idset(got)
+	// literal observation: recreate the whole state reading only that snapshot DB
+	_, _, err := reach(roView{sdb}, root)
+	return true, d.s.idset(got), err == nil
 }
 
+// jobObs: once every job has finished, the verdict data of the jobs not yet reported
 func (d *driver) jobObs() M {
-	idle := d.jobsDone() && !d.parked
+	idle := d.jobsDone()
 	js := []M{}
 	if idle {
 		for _, j := range d.jobs {
@@ -457,22 +524,17 @@ func (d *driver) jobObs() M {
 				continue
 			}
 			j.done = true
-			found, content := d.snapshotContent(j.root)
-			// literal observation: recreate the whole state reading only the snapshot DB
-			alone := 0
-			if found {
-				sdb := d.s.tsm.GetSnapshotThatContainsHash(j.root)
-				if sdb != nil {
-					if _, _, err := reach(roView{sdb}, j.root); err == nil {
-						alone = 1
-					}
-					sdb.DecreaseNumReferences()
-				}
-			}
-			js = append(js, M{"r": j.rid, "kind": j.kind, "found": b2i(found), "snap": content, "alone": alone})
+			found, content, alone := d.snapshotContent(j.root)
+			js = append(js, M{"r": j.rid, "kind": j.kind, "found": b2i(found), "snap": content, "alone": b2i(alone)})
 		}
 	}
-	return M{"idle": b2i(idle), "done": js}
+	ps := []M{}
+	for _, p := range d.s.g.parked() {
+		m := M{"at": p.kind, "key": d.s.id(p.key), "j": 0}
+		if j := d.jobOf(p.g); j != nil {
+			m["j"] = j.idx
+		}
+		ps = append(ps, m)
+	}
+	return M{"idle": b2i(idle), "done": js, "parked": ps}
 }
-
-var _ = data.OldRoot
